@@ -95,6 +95,7 @@ struct Out {
 	points: usize,
 	trace: Vec<&'static str>,
 	resends: usize,
+	waits_for_closed: usize,
 }
 
 /// Id provider driven by the harness: hands out the queued ids first (so that an id can be issued again on the same
@@ -720,6 +721,21 @@ async fn run_spec(spec: &Spec, real_time: bool) -> Out {
 				}
 			}
 		}
+		// (g) waiting for the end of a subscription that has already ended returns at once
+		for e in log {
+			if let (HStep::WaitClosed, Some(t)) = (&e.step, &e.timed) {
+				if let (Some(ct), Reply::ClosedResolved(false)) = (close_ticket, &t.reply) {
+					// (virtual time only: "within 3 ms" is no verdict on a real clock)
+					if t.before > ct && !real_time {
+						let how = if Some(ct) == unsub_true_ticket { "unsubscribe" } else if Some(ct) == stopped { "server-stop" } else { "connection-end" };
+						bad!(format!("closed-future-pending-after-close/{how}"), "{tag}: sink.closed() was first awaited at ticket {} after the close at {ct} and did not complete within 3 virtual ms", t.before);
+					}
+				}
+				if matches!(t.reply, Reply::ClosedResolved(_)) {
+					out.waits_for_closed += 1;
+				}
+			}
+		}
 		// (f) closing notifications
 		let closing: Vec<&FrameEv> = mine.iter().map(|(_, f)| f).filter(|f| f.v["params"].get("error").is_some() || f.v["params"]["result"]["closing"] == json!(true)).collect();
 		if closing.len() > 1 {
@@ -768,6 +784,7 @@ fn record(spec: &Spec, o: Out, ev: &mut Evidence, violations: &mut Vec<Violation
 	ev.count("sends_failed_as_seen_by_handlers", o.sends_failed as u64);
 	ev.count("subscriptions_with_a_close_instant", o.closes as u64);
 	ev.count("sends_started_after_a_close", o.sends_after_close as u64);
+	ev.count("waits_for_sink_closed_observed", o.waits_for_closed as u64);
 	ev.count("library_points_reached", o.points as u64);
 	if spec.long_ids {
 		ev.count("histories_with_subscription_ids_above_the_response_limit", 1);
